@@ -401,6 +401,7 @@ pub fn exec(func: &str, a: &mut Args) -> String {
             }
             s
         }
+        "hfwalk" => hfwalk_exec(a),
         // debugging aid: the e2e arguments seen from the height field's frame + the trace of the cell walk
         "hfdbg" => {
             let pos1 = dx::iso(a); let vel1 = dx::v(a); let g1 = shape(a);
